@@ -757,7 +757,10 @@ impl super::MainState {
                             if !chum.is_protected()
                                 && (!chum.is_half_operator() || !is_only_half_oper)
                             {
-                                kicked.push(kick_user);
+                                // user given twice is kicked once
+                                if !kicked.contains(&kick_user) {
+                                    kicked.push(kick_user);
+                                }
                             } else {
                                 self.feed_msg(
                                     &mut conn_state.stream,
@@ -804,15 +807,17 @@ impl super::MainState {
             for ku in &kicked {
                 state.remove_user_from_channel(channel, ku);
             }
-            let chanobj = state.channels.get(channel).unwrap();
             for ku in &kicked {
                 let kick_msg = format!("KICK {} {} :{}", channel, ku, comment.unwrap_or("Kicked"));
-                for nick in chanobj.users.keys() {
-                    state
-                        .users
-                        .get(nick)
-                        .unwrap()
-                        .send_msg_display(&conn_state.user_state.source, kick_msg.clone())?;
+                // channel can be already removed if no more users at channel
+                if let Some(chanobj) = state.channels.get(channel) {
+                    for nick in chanobj.users.keys() {
+                        state
+                            .users
+                            .get(nick)
+                            .unwrap()
+                            .send_msg_display(&conn_state.user_state.source, kick_msg.clone())?;
+                    }
                 }
                 // and send to kicked user
                 state
